@@ -12,7 +12,10 @@ from .. import spec
 def outcome_class(rs):
     """Collapse the per-path results of one route into a comparable outcome."""
     kinds = set()
-    for r in rs:
+    precise = [r for r in rs if not r.get("imprecise")]
+    if not precise and rs:
+        return {"value:unjudged"}
+    for r in precise:
         if r["status"] == "unsupported":
             kinds.add("unsupported")
         elif r.get("got") == "raise":
@@ -130,7 +133,7 @@ def check(rep):
         cnt = Counter(frozenset(k) for k in judged.values())
         major = cnt.most_common(1)[0][0]
         deviants = sorted(r for r, k in judged.items() if frozenset(k) != major)
-        imprecise = any(r["imprecise"] for rs in out["routes"].values() for r in rs)
+        imprecise = False      # results on undecided paths were already left out by outcome_class
         msg = (f"{out['tree']} d/d{var} at {{{out['val']}}}: routes disagree: "
                + "; ".join(f"{r} -> {'/'.join(sorted(judged[r]))}" for r in deviants)
                + f" while the others give {'/'.join(sorted(major))}")
